@@ -94,6 +94,11 @@ flog2 = z3.Function('u_log2', R, R)
 str_of_int = None
 
 
+def ca_is_minus_one(I, a):
+    c = I.const_of(a)
+    return c is not None and c == -1
+
+
 def sort_kind(e):
     s = e.sort()
     if s == z3.IntSort():
@@ -370,7 +375,12 @@ class Interp(object):
             if cb is not None and cb >= 0:
                 return self.mk(self.z(a, 'int') * z3.IntVal(2 ** cb), 'int', npres)
             self.pow2_axioms()
-            return self.mk(self.z(a, 'int') * pow2(self.z(b, 'int')), 'int', npres)
+            if not npres and self.ctx.branch(self.z(b, 'int') < 0, safety=True):
+                raise_py('ValueError', 'negative shift count')
+            r = self.mk(self.z(a, 'int') * pow2(self.z(b, 'int')), 'int', npres)
+            if ca_is_minus_one(self, a) and isinstance(r, SV):
+                r.neg_pow2_bits = self.z(b, 'int')        # (~0) << k  ==  -(2^k)
+            return r
         if op == 'BitAnd':
             if ka == 'bool' and kb == 'bool':
                 return self.mk(z3.And(self.z(a), self.z(b)), 'bool')
@@ -432,6 +442,10 @@ class Interp(object):
         self.ctx._pow2_ax = True
         for k in range(0, 70):
             self.ctx.add_axiom(pow2(z3.IntVal(k)) == z3.IntVal(2 ** k), 'A-INT:pow2-table(0..69)')
+        kk = z3.Int('ax_pk')
+        self.ctx.add_axiom(z3.ForAll([kk], z3.Implies(kk >= 0, pow2(kk) >= 1), patterns=[pow2(kk)]), 'A-INT:2^k >= 1 for k >= 0')
+        xx = z3.Real('ax_lx')
+        self.ctx.add_axiom(z3.ForAll([xx], z3.Implies(xx >= 1, flog2(xx) >= 0), patterns=[flog2(xx)]), 'A-REAL:log2(x) >= 0 for x >= 1')
 
     def bitand(self, a, b, npres):
         # x & (2^k - 1) == x mod 2^k for x >= 0 (axiom on &), mask given as literal or as pow2(k)-1
@@ -522,8 +536,11 @@ class Interp(object):
             if isinstance(a, int):
                 return ~a
             if self.kind(a) == 'int':
-                r = self.mk(-self.z(a, 'int') - 1, 'int')
                 sh = getattr(a, 'neg_pow2_bits', None)
+                if sh is not None:
+                    r = SV(pow2(sh) - 1, 'int')            # ~(-(2^k)) == 2^k - 1
+                else:
+                    r = self.mk(-self.z(a, 'int') - 1, 'int')
                 if sh is not None and isinstance(r, SV):
                     r.mask_bits = sh
                 return r
@@ -1102,7 +1119,13 @@ class Interp(object):
         path there).  Exceptions of the body are hoisted: the comprehension raises iff some element
         raises, which is decided by exploring the body once for a fresh index."""
         if g.ifs:
-            raise Unsupported('filtering comprehension over a symbolic sequence')
+            # a filtered sub-sequence: unknown length <= n, elements not modelled (only ever joined into messages)
+            m = self.ctx.fresh_int('filtered_n')
+            self.ctx.assume(z3.And(0 <= m, m <= self.z(self.seq_len(it), 'int')))
+
+            def nofn(interp_, i):
+                raise Unsupported('element of a filtered comprehension over a symbolic sequence')
+            return stamp(SymSeq('list', self.mk(m, 'int'), nofn))
         n = self.seq_len(it)
         nz = self.z(n, 'int')
         # explore the body for a fresh index to find out whether it can raise
@@ -1139,6 +1162,7 @@ class Interp(object):
                 interp_.hoist = saved
         res = stamp(SymSeq('list', n, fn))
         res.map_of = it
+        res.no_raise = True
         return res
 
     def snapshot(self, v):
@@ -1294,6 +1318,12 @@ class Interp(object):
             for (oi, ov) in reversed(s.overlays):
                 if self.ctx.branch(self.z(oi, 'int') == k):
                     return ov
+            if getattr(s, 'no_raise', False):
+                # the sequence exists, so evaluating any of its elements did not raise (established when it was built)
+                try:
+                    return s.fn(self, k)
+                except PyExc:
+                    raise PathAbort('element of an already built sequence cannot raise')
             return s.fn(self, k)
         if isinstance(s, Seq):
             kk = z3.simplify(k)
